@@ -509,19 +509,37 @@ func ruleP6(c *Ctx) {
 	}
 	c.ok("P6", "stopPlugins", sp.Pos(), okAll, "stopPlugins stops every plugin in the list", "stopPlugins does not call stop for every element of r.plugins")
 	rm := m.method(pkgAdapt, "Adaptation", "removeClosedPlugins")
-	okDrop := false
-	for _, af := range rm.AnonFuncs {
-		for _, ci := range m.callsTo(af, stop) {
+	// the stop loop may live in removeClosedPlugins itself, in a closure of it, or in a helper it calls or starts
+	var stopsInLoop func(f *ssa.Function, depth int) bool
+	stopsInLoop = func(f *ssa.Function, depth int) bool {
+		if f == nil || depth > 2 {
+			return false
+		}
+		for _, ci := range m.callsTo(f, stop) {
 			if inLoop(ci.Block()) {
-				okDrop = true
+				return true
 			}
 		}
-	}
-	for _, ci := range m.callsTo(rm, stop) {
-		if inLoop(ci.Block()) {
-			okDrop = true
+		for _, af := range f.AnonFuncs {
+			if stopsInLoop(af, depth+1) {
+				return true
+			}
 		}
+		for _, ci := range calls(f) {
+			if g := m.callee(ci.Common()); g != nil && g != stop && g.Pkg != nil && g.Pkg.Pkg.Path() == pkgAdapt && len(g.Blocks) > 0 {
+				// the helper is handed a list of plugins
+				for _, a := range ci.Common().Args {
+					if sl, ok := a.Type().Underlying().(*types.Slice); ok {
+						if n := ptrNamed(sl.Elem()); n != nil && tname(n.Obj()) == "plugin" && stopsInLoop(g, depth+1) {
+							return true
+						}
+					}
+				}
+			}
+		}
+		return false
 	}
+	okDrop := stopsInLoop(rm, 0)
 	c.ok("P6", "removeClosedPlugins", rm.Pos(), okDrop, "every plugin dropped from the list is stopped", "dropped plugins are not stopped: their processes are never killed")
 }
 
